@@ -101,6 +101,7 @@ type CallAnn struct {
 	Ghosts  []GhostUpd
 	Line    int
 	matched bool
+	seen    int
 }
 
 type GhostUpd struct {
@@ -814,7 +815,9 @@ func readSpecFile(path string, isSpec bool) (*SpecFile, error) {
 					for _, n := range names {
 						pd.Params = append(pd.Params, Binder{n, t})
 					}
-					p.accept(";")
+					if !p.accept(";") {
+						p.accept(",")
+					}
 				}
 				p.expect(")")
 				if !isPred && p.peek().kind != "eof" {
